@@ -28,10 +28,31 @@ func TestReplay(t *testing.T) {
 		t.Fatalf("unknown harness %q", name)
 	}
 	var args []reflect.Value
+	if nm, _ := doc["name"].(string); nm != "" {
+		args = append(args, reflect.ValueOf(nm))
+	}
 	if ps, ok := doc["params"].([]interface{}); ok {
 		for _, p := range ps {
 			args = append(args, reflect.ValueOf(int(p.(float64))))
 		}
+	}
+	if exp, _ := doc["expect"].(map[string]interface{}); exp != nil && exp["kind"] == "never" {
+		label, _ := exp["label"].(string)
+		seen := false
+		for seed := uint64(1); seed <= 64 && !seen; seed++ {
+			vrt.Reset()
+			vrt.RandomSeed = seed
+			reflect.ValueOf(fn).Call(args)
+			if len(vrt.Notes) == 0 && vrt.Possibles[label] {
+				seen = true
+			}
+		}
+		if seen {
+			fmt.Printf("VRT-NEVER %s observed-true\n", label)
+		} else {
+			fmt.Printf("VRT-NEVER %s never-true\n", label)
+		}
+		return
 	}
 	time.Sleep(20 * time.Millisecond)
 	base := runtime.NumGoroutine()
